@@ -211,6 +211,28 @@ def run(ctx, out):
         if got is not want:
             out.violation('C16:eq-derived-from-parametrised-generic', f'{label} gave {got!r}, expected {want!r}: equality compares the class '
                           '(ignoring only the generic parameters of that same class)', {'comparison': label})
+    # assignment on non-frozen instances is tracked for inherited fields and for parameterised generics as well
+    class MB(pane.PaneBase, frozen=False):
+        x: int = 0
+        y: int = 0
+
+    class MD(MB):
+        z: int = 0
+
+    class MG(pane.PaneBase, t.Generic[T], frozen=False):
+        x: int = 0
+        y: int = 0
+    for label, mk in (('own field', lambda: MB(1)), ('inherited field', lambda: MD(1, z=7)), ('parameterised generic', lambda: MG[int](1)),
+                      ('unparameterised generic', lambda: MG(1))):
+        n += 1
+        inst = mk()
+        inst.y = 5
+        before = set(inst.__pane_set__)
+        rep = inst.__replace__()
+        cp = copy.copy(inst)
+        if 'y' not in before or rep.y != 5 or cp.y != 5 or 'y' not in inst.dict(set_only=True) or not (rep == inst):
+            out.violation('C16:assignment-not-recorded', f'{label}: after inst.y = 5 on {inst!r}: set-record {sorted(before)}, replace() gives {rep!r}, copy gives {cp!r}, '
+                          f'dict(set_only=True) = {inst.dict(set_only=True)!r}', {'case': label})
     out.evaluations += n
     out.sample({'case': items[7][1][:5], 'observed (==, <, <=, >, >=)': list(items[7][1][5])})
     if any(f in ctx['failed_files'] for f in ('Model/ClassSem.v', 'Run/AgreeSem.v')):
